@@ -699,9 +699,8 @@ PPL::PIP_Problem
                                 "*this and p_vars are dimension "
                                 "incompatible.");
   }
-  const dimension_type original_size = parameters.size();
-  parameters.insert(p_vars.begin(), p_vars.end());
-  // Do not allow to turn variables into parameters.
+  // Do not allow to turn variables into parameters
+  // (checked before `parameters' is modified).
   for (Variables_Set::const_iterator p = p_vars.begin(),
          end = p_vars.end(); p != end; ++p) {
     if (*p < internal_space_dim) {
@@ -710,6 +709,8 @@ PPL::PIP_Problem
                                   "p_vars contain variable indices.");
     }
   }
+  const dimension_type original_size = parameters.size();
+  parameters.insert(p_vars.begin(), p_vars.end());
 
   // If a new parameter was inserted, set the internal status to
   // PARTIALLY_SATISFIABLE.
